@@ -96,9 +96,11 @@ CLAIMS.update({
          'inductive loop contract over an arbitrary number of binaries): the result is exactly (12 if some binary of the first '
          'package is absent from the second) | (or of the statuses of all compared pairs); so a removed binary always yields '
          'bits 4|8, a changed pair always yields its bits, and 0 is returned only when nothing was removed and every pair was '
-         'clean. comparison_done_notify::operator() is proved to accumulate task statuses with |=.',
+         'clean. comparison_done_notify::operator() is proved to accumulate task statuses with |=. Real per-binary compare(): the '
+         'verdict of a pair is error (1) if either binary cannot be read, 0 if a suppression skips the pair, else exactly '
+         '(4 if has_net_changes) | (8 if has_incompatible_changes) - what abidiff computes for the pair.',
          'Packages, the worker queue (runs the notifier once per task; its net effect is modelled through the notifier contract) '
-         'and the per-pair comparison are stubs; agreement of per-pair verdicts with abidiff is not decided. Checked without --dfcc '
+         'are stubs; the library calls below the per-pair compare() are stubs. Checked without --dfcc '
          '(assume/assert around the call).', '5 C30'),
  'C14': ('proof',
          'The ordering functor that fixes the order of abipkgdiff results, elf_size_is_greater (real text), equals the '
